@@ -7,6 +7,7 @@ CLAIM = ('bech32/bech32m layer of address encoding, real src/bech32.cpp included
          'encoding it was created with - for ALL payloads at codeword length 8, and for sampled payloads with ALL error patterns of weight <= 4 at codeword length 14 (both encodings). '
          'NOT covered (did not finish within budget, see report): bech32::Decode control flow (separator search / case rules / limits), error detection beyond 14 symbols (the property asks for 90), '
          'base58, descriptor checksum, descriptor parsing, BIP32, per-network address typing. ConvertBits<8,5>/<5,8> incl. non-zero padding rejection is exercised in C48 (b32_roundtrip / b32_decode_all).')
+CLAIM += (' Character screening (harness bech32_case): the real bech32::CheckCharacters - first step of Decode - rejects exactly the strings with a byte outside 33..126 or with mixed-case letters, for every string of the listed lengths.')
 SMALL = ['-D', 'VERIF_ALLOC_MAX=128']
 # XOR-heavy (BCH checksum) equivalence/UNSAT queries: minisat (CBMC default) does not finish, cadical/kissat do
 K = dict(objbits=10, diff_runs=16, backends=['cadical', 'kissat'])
@@ -21,4 +22,6 @@ HARNESSES = [
       unwind=40, memunwind=40, cbmc=SMALL, timeout=600, functions=BFN,
       bounds='error patterns = symbolic 5-bit XOR value at every data/checksum position with 1 <= weight <= 4 (hrp untouched): all payloads at codeword length 8; sampled (concrete) payload, all error patterns at codeword length 14, both encodings '
              '(thorough: all payloads length 10 weight <= 3; sampled length 20 weight <= 2). Codeword length 26 with weight 4 did not finish in 400 s: the 90-character claim of the property is NOT reached.', **K),
+    H('bech32_case', 'bech32.cpp', 'h_bech32_case', variants=[{'CLEN': 2}, {'CLEN': 4}], tvariants=[{'CLEN': n} for n in (1, 2, 3, 4, 6)], unwind=30, memunwind=40, timeout=300, functions=['bech32::CheckCharacters (anonymous namespace of bech32.cpp; the first step of bech32::Decode and LocateErrors)'],
+      bounds='every string of 2 and 4 bytes (thorough 1-6), every byte value 0..255: rejected iff a character is outside 33..126 or lower- and upper-case letters are mixed (all 26+26 letters by enumeration)', **K),
 ]
